@@ -312,12 +312,47 @@ class ThreadingProxy:
         return threading.Thread(*args, **kwargs)
 
 
+class SharedAttr:
+    """Data descriptor installed on Cache for the one attribute through
+    which threads sharing a Cache object communicate in Python memory
+    (``_txn_id``): every read is reported to the engine so that it becomes
+    part of the reading client's observation log (state-cache soundness)."""
+
+    def __init__(self, name):
+        self.name = name
+        self.slot = '_verif_' + name
+
+    def __get__(self, obj, cls=None):
+        if obj is None:
+            return self
+        hook = ENV.hook
+        if hook is not None:
+            access = getattr(hook, 'shared_access', None)
+            if access is not None:
+                access('read', self.name)      # may be a scheduling point
+        value = obj.__dict__.get(self.slot)
+        if hook is not None:
+            report = getattr(hook, 'shared_read', None)
+            if report is not None:
+                report(self.name, value)
+        return value
+
+    def __set__(self, obj, value):
+        hook = ENV.hook
+        if hook is not None:
+            access = getattr(hook, 'shared_access', None)
+            if access is not None:
+                access('write', self.name)
+        obj.__dict__[self.slot] = value
+
+
 def load():
     """install() + import the library from the working tree."""
     install()
     import diskcache  # noqa
     path = os.path.dirname(os.path.abspath(diskcache.__file__))
     assert path == os.path.join(REPO, 'diskcache'), path
+    diskcache.core.Cache._txn_id = SharedAttr('_txn_id')
     proxy = ThreadingProxy()
     for mod in list(sys.modules.values()):
         name = getattr(mod, '__name__', '')
